@@ -13,6 +13,7 @@
 //@harness check_eval_tcp_throughput      props=C14,C03 kind=full target=eval_tcp_throughput
 //@harness eval_tcp_throughput_rfc_points  props=C14 kind=bounded target=eval_tcp_throughput bound="4 concrete (R,p) points against the literal RFC 5348 3.1 formula, tolerance 1 B/s (CBMC's sqrt is nondeterministic within 1 ulp)" tier=thorough
 //@harness eval_tcp_throughput_point_p1    props=C14 kind=bounded target=eval_tcp_throughput bound="one concrete point (R = 1 s, p = 1): result within 1 B/s of the RFC 5348 3.1 value 6.05 B/s"
+//@harness check_new_initial_state       props=C14,C13 kind=full target=SendRateComp::new
 //@harness check_initial_send_rate        props=C14,C03 kind=full target=compute_initial_send_rate
 //@harness check_initial_loss_send_rate   props=C14,C03 kind=full target=compute_initial_loss_send_rate
 //@harness check_update_rtt               props=C14,C03 kind=full target=SendRateComp::update_rtt
@@ -140,6 +141,19 @@ fn check_eval_tcp_throughput() {
     kani::assume(r >= 0.0 && r <= RTT_MAX_S && r.is_sign_positive() && p >= 0.0 && p <= 1.0);
     let x = eval_tcp_throughput(r, p);
     assert!(p != 0.0 || x == u32::MAX);
+}
+
+/// RFC 5348 4.2: "the sender ... sets its allowed sending rate X to 1 packet/second"; nothing has been measured yet; the
+/// ceiling is the constructor's argument (C13). The contract Verus assumes for `new` (send_rate_getters.vspec) is this one.
+#[kani::proof]
+fn check_new_initial_state() {
+    let max: u32 = kani::any();
+    let c = SendRateComp::new(max);
+    assert!(c.send_rate == 1472, "C14: X starts at one segment (s = 1472 bytes) per second");
+    assert!(c.max_send_rate == max, "C13: the ceiling is the negotiated limit");
+    assert!(matches!(c.mode, SendRateMode::AwaitSend) && c.rtt_s.is_none() && c.rtt_ms.is_none() && c.rto_ms.is_none()
+            && c.nofeedback_exp_ms.is_none() && !c.nofeedback_idle && c.prev_loss_rate == 0.0 && c.recv_rate_set.kv_len() == 0,
+            "C14: no RTT, no timer, no loss history, empty receive-rate set before the first frame is sent");
 }
 
 #[kani::proof]
